@@ -286,3 +286,23 @@ Proof.
   unfold label, str_fields, render. cbn [map render_field List.concat list_ascii_of_string].
   unfold zlen in *. rewrite !app_length. cbn [List.length]. lia.
 Qed.
+
+(** ** spans: a dekad covers exactly [ndays] whole days, starting at midnight; the 36 dekads of
+    a year cover that calendar year *)
+Lemma dekad_span k : end_date k + timedelta_us 1 - start_date k = ndays k * US_PER_DAY.
+Proof. rewrite <- abut, start_succ, ndays_correct. lia. Qed.
+
+Lemma start_midnight k : start_date k mod US_PER_DAY = 0.
+Proof. unfold start_date, datetime. apply Z.mod_mul. pose proof us_per_day_pos. lia. Qed.
+
+Lemma year_span y :
+  start_date (of_ymd (y + 1) 1 1) - start_date (of_ymd y 1 1) = (if is_leap y then 366 else 365) * US_PER_DAY.
+Proof.
+  destruct (raw_of_ymd y 1 1 ltac:(lia) ltac:(lia)) as (Y1 & M1 & I1).
+  destruct (raw_of_ymd (y + 1) 1 1 ltac:(lia) ltac:(lia)) as (Y2 & M2 & I2).
+  unfold start_date, day. unfold idx in I1, I2.
+  replace (of_ymd y 1 1 mod 3) with 0 by lia. replace (of_ymd (y + 1) 1 1 mod 3) with 0 by lia.
+  rewrite Y1, M1, Y2, M2. unfold datetime, ordinal. rewrite next_year.
+  unfold days_before_month. cbn [Z.ltb Z.compare Pos.compare Pos.compare_cont].
+  destruct (is_leap y); cbn; lia.
+Qed.
